@@ -4,6 +4,7 @@ pub mod props {
     pub mod c03;
     pub mod c04;
     pub mod c05;
+    pub mod c06;
     pub mod c12;
     pub mod c16;
     pub mod c17;
